@@ -20,7 +20,7 @@ META_KEY = "c07.tag"
 RULE_TAG = "pkg.onnxscript.rewriter.rule_name"
 
 SITES = ["main", "then", "else", "loop", "func", "deep", "deep_loop", "func_if"]
-WIRINGS = ["plain", "chain", "gout", "nested", "inter", "cross", "dup"]
+WIRINGS = ["plain", "chain", "gout", "nested", "inter", "cross", "dup", "fork", "fork_gout"]
 EXTRAS = ["none", "pre", "post"]
 CLASHES = ["none", "diff", "same", "diff_sub"]
 
@@ -136,6 +136,18 @@ def _body(kind, wiring, p, a, y, w, c, j, b):
     if wiring == "chain":
         cn, t = tp["combine"]("")
         return tp["inner"] + tp["root"] + cn, t, extra
+    if wiring in ("fork", "fork_gout"):
+        # two instances in parallel reading the SAME source value; with fork_gout both matched outputs are graph
+        # outputs as well (seeded C07e: a forwarding replacement renamed the shared source twice)
+        ta = _template(kind, p + "_fa", a, y, w, j, b)
+        tb = _template(kind, p + "_fb", a, y, w, j, b)
+        ca, xa = ta["combine"]("")
+        cb, xb = tb["combine"]("")
+        r = f"{p}_r"
+        nodes = ta["inner"] + ta["root"] + ca + tb["inner"] + tb["root"] + cb + [b.node("Sub", [xa, xb], [r], f"{p}_sub")]
+        if wiring == "fork_gout":
+            extra = list(ta["outs"]) + list(tb["outs"])
+        return nodes, r, extra
     if wiring == "nested":
         cn1, t1 = tp["combine"]("a")
         cn2, t2 = tp["combine"]("b")
@@ -166,7 +178,7 @@ def _loop(b, p, cur, y, w, c, kind, wiring, j):
 def valid_combo(kind, site, wiring):
     if wiring in ("inter", "cross") and kind not in MULTI_NODE:
         return False
-    if wiring == "gout" and site != "main":
+    if wiring in ("gout", "fork_gout") and site != "main":
         return False
     if wiring == "dup" and kind not in ("add", "addmul"):
         return False
